@@ -136,7 +136,15 @@ func init() { mqtt.VerifEvent = defaultHook }
 // reading is then corrected to the one the code acted on.
 func normalizeCtx(evs []syncEvent) []syncEvent {
 	out := append([]syncEvent(nil), evs...)
-	for i, e := range out {
+	// a corrected reading is also moved to where the code made it: directly before the
+	// goroutine's next event (the cancellation lies between the hook's read and the code's)
+	move := func(i, j int) {
+		e := out[i]
+		copy(out[i:j-1], out[i+1:j])
+		out[j-1] = e
+	}
+	for i := 0; i < len(out); i++ {
+		e := out[i]
 		if e.site == "dc.dial" && len(e.args) == 2 && e.args[0] == 0 && e.args[1] == 0 {
 			// same for the hook after a failed dial: the code reads the context after the hook did;
 			// the context.Canceled return hands the connection semaphore back without touching
@@ -147,6 +155,8 @@ func normalizeCtx(evs []syncEvent) []syncEvent {
 				}
 				if out[j].site == "csSend" {
 					out[i].args = []int{0, 1}
+					move(i, j)
+					i-- // the event that moved into position i has not been looked at
 				}
 				break
 			}
@@ -161,6 +171,8 @@ func normalizeCtx(evs []syncEvent) []syncEvent {
 			}
 			if out[j].site == "seqSend" || out[j].site == "csSend" {
 				out[i].args = []int{1}
+				move(i, j)
+				i--
 			}
 			break
 		}
